@@ -582,7 +582,8 @@ def install(lib, np_):
 
   @method('all')
   def _mall(cx, a, **kw):
-    return VBool(fresh('all', z3.BoolSort()))
+    s = st_of(cx, a)
+    return VBool(TH.allT(s.term) if s.term is not None else fresh('all', z3.BoolSort()))
 
   @method('tolist')
   def _tolist(cx, a):
@@ -673,7 +674,9 @@ def install(lib, np_):
   @ext('sklearn.datasets.make_spd_matrix', 'ASSUMED: a random symmetric positive definite (n, n) matrix, a deterministic function of the RandomState')
   def _mspd(cx, n, random_state=None, **kw):
     rng_use(cx, random_state, 'make_spd_matrix')
-    return cx.new(None, [n.t, n.t], 'f')
+    r = cx.new(None, [n.t, n.t], 'f')
+    cx.p.assume(TH.pd(cx.st(r).term))          # ASSUMED (its documentation): symmetric positive definite
+    return r
 
   # --------------------------------------------------------------------------------------- sklearn objects
   def ctor(kind, dotted, **defaults):
@@ -683,14 +686,21 @@ def install(lib, np_):
       d.update(kw)
       if 'random_state' in d:
         rs = d['random_state']
-        src = 'global-unseeded' if isinstance(rs, VNone) else 'seeded'
+        if isinstance(rs, VNone):
+          src = 'global-unseeded'
+        elif isinstance(rs, VExtObj) and rs.kind == 'rng':
+          src = cx.p.heap[rs.oid].get('source', 'seeded')
+          src = 'global-unseeded' if src == 'global-unseeded' else 'seeded'
+        else:
+          src = 'seeded'
         cx.p.events.append(('random-source', kind, src, cx.line()))
       return new_extobj(cx.p, kind, **d)
     return h
-  ctor('pca', 'sklearn.decomposition.PCA')
+  # PCA (randomized solver on large inputs) and KMeans draw random numbers: random_state=None means the GLOBAL unseeded generator
+  ctor('pca', 'sklearn.decomposition.PCA', random_state=VNone())
   ctor('lda', 'sklearn.discriminant_analysis.LinearDiscriminantAnalysis')
   ctor('nn', 'sklearn.neighbors.NearestNeighbors')
-  ctor('kmeans', 'sklearn.cluster.KMeans')
+  ctor('kmeans', 'sklearn.cluster.KMeans', random_state=VNone())
 
   @emethod('pca', 'fit', 'ASSUMED: components_ has shape (n_components, d); ValueError when n_components > min(n, d)')
   def _pca_fit(cx, o, X, y=None):
@@ -822,9 +832,9 @@ def install(lib, np_):
     s = st_of(cx, emp_cov)
     cx.may_raise('FloatingPointError', None, 'graphical_lasso: non SPD result / ill-conditioned system')
     cx.may_raise('ValueError', None, 'graphical_lasso input validation')
-    cx.p.events.append(('graphical_lasso', dict(emp_cov=str(s.term), alpha=str(alpha.t) if isinstance(alpha, (VReal, VInt)) else repr(alpha))))
     cov = cx.new(None, s.shape.dims, 'f')
     prec = cx.new(TH.glasso(s.term, scalar_term(cx, alpha)) if (s.term is not None and scalar_term(cx, alpha) is not None) else None, s.shape.dims, 'f')
+    cx.p.events.append(('graphical_lasso', dict(emp_cov=emp_cov, alpha=alpha, precision=prec)))
     return VTuple([cov, prec, cx.new(None, [z3.IntVal(1)], 'f'), VInt(fresh('nit', z3.IntSort()))])
   for dotted in ('sklearn.covariance._graph_lasso._graphical_lasso', 'sklearn.covariance.graphical_lasso'):
     ext(dotted, 'ASSUMED: returns (covariance, precision, ...) with precision the minimiser of tr(S Theta) - logdet Theta + alpha*||Theta||_1,off; may raise FloatingPointError / ValueError')(_glasso)
